@@ -347,6 +347,10 @@ def check_value(ctx, ser, v, tr=None):
                 ctx.fail("msgpack-arg-exttype",
                          "msgpack: %s argument arrives as msgpack.ExtType but the same value comes back correctly as a result: "
                          "arg=%s result=%s" % (name, repr(got)[:200], repr(res)[:200]), case)
+            elif ser == "marshal" and not python_only and tr[0] == "L" and got[0] == "err" and res[0] == "ok":
+                ctx.fail("marshal-list-arg-unconverted",
+                         "marshal: a list is converted item by item as a result but not as a %s argument: arg=%s result=%s"
+                         % (name, repr(got)[:200], repr(res)[:200]), case)
             else:
                 ctx.fail("asymmetric-%s" % ser, "%s: %s argument and result differ: arg=%s result=%s"
                          % (ser, name, repr(got)[:200], repr(res)[:200]), case)
@@ -425,8 +429,11 @@ def _e2e_check(ctx, rigs, ser, comp, v):
     for a, b in (("arg", "kwarg"), ("arg", "result"), ("result", "stream-item"), ("nested-arg", "nested-result"),
                  ("nested-result", "batch-result")):
         if not same(a, b):
-            sig = "msgpack-arg-exttype" if (ser == "msgpack" and any(o and o[0] == "ok" and _has_ext(o[1]) for o in (obs[a], obs[b]))) \
-                else "asymmetric-%s" % ser
+            sig = "asymmetric-%s" % ser
+            if ser == "msgpack" and any(o and o[0] == "ok" and _has_ext(o[1]) for o in (obs[a], obs[b])):
+                sig = "msgpack-arg-exttype"
+            elif ser == "marshal" and tr[0] == "L" and a == "arg" and obs[a][0] == "err" and obs[b][0] == "ok":
+                sig = "marshal-list-arg-unconverted"
             ctx.fail(sig, "%s, compression %s: position %s delivers %s but position %s delivers %s"
                      % (ser, "on" if comp else "off", a, repr(obs[a])[:160], b, repr(obs[b])[:160]),
                      _case(ser, tr, position=a + "/" + b, compression=comp))
